@@ -174,7 +174,10 @@ func MapOrder(symbolic bool)        {}
 func Sched(budget int, explore bool) {}
 func SelectChoice(on bool)          {}
 func RaceMonitor(on bool)           {}
-func AllocLimit(n int)              {}
+// AllocLimit: natively the case fails if it allocates more than 32x the limit in total.
+func AllocLimit(n int) { allocLimit = uint64(n) }
+
+var allocLimit uint64
 func UUIDCalls() int                { return -1 }
 func Note(s string)                 {}
 
@@ -245,6 +248,17 @@ func RunCase(reg map[string]func()) {
 	if !ok {
 		res.Diverged = "unknown harness " + c.Harness
 	} else {
+		var ms0 runtime.MemStats
+		runtime.ReadMemStats(&ms0)
+		checkAlloc := func() {
+			if allocLimit > 0 {
+				var ms1 runtime.MemStats
+				runtime.ReadMemStats(&ms1)
+				if ms1.TotalAlloc-ms0.TotalAlloc > 32*allocLimit {
+					res.Asserts = append(res.Asserts, AssertOut{Label: "allocation larger than the limit (native: total allocation " + strconv.FormatUint(ms1.TotalAlloc-ms0.TotalAlloc, 10) + " bytes)", OK: false})
+				}
+			}
+		}
 		func() {
 			defer func() {
 				if r := recover(); r != nil {
@@ -260,6 +274,7 @@ func RunCase(reg map[string]func()) {
 			}()
 			f()
 		}()
+		checkAlloc()
 	}
 	mu.Lock()
 	b, _ := json.Marshal(res)
